@@ -357,6 +357,8 @@ impl Number {
             Number::Rational(num) => {
                 match (num.numer().checked_pow(exp), num.denom().checked_pow(exp)) {
                     (Some(numer), Some(denom)) => Rational32::new_raw(numer, denom).into(),
+                    // an integer carried as a rational: its power is an integer, as for a fixnum
+                    _ if num.is_integer() => Number::Fixnum(*num.numer() as i64).pow(exp),
                     // the exact power, rounded once: powf of the rounded base would be off by
                     // about exp units in the last place
                     _ => match exp.to_i32() {
